@@ -50,6 +50,11 @@ KINDS = ['drop', 'duplicate', 'swap', 'rename_field', 'rename_model',
          'add_existing', 'missing_app_model']
 
 
+# perturbations that produce one of the defects the property lists by name
+MUST_REJECT = ('strip_initial', 'delete_pk', 'add_existing',
+               'missing_app_model', 'rename_model', 'rename_field')
+
+
 def perturb(rng, scn):
     """Return (kind, description) after perturbing scn in place, or None."""
     evos = scn['project']['apps']['va']['steps'][0]['evos']
@@ -129,10 +134,10 @@ def perturb(rng, scn):
                 m['model'] = rng.choice(others)
                 return kind, m['op']
         if kind == 'delete_pk' and models0:
-            muts.insert(mi, {'op': 'DeleteField',
-                             'model': rng.choice(models0)['name'],
+            mname = rng.choice(models0)['name']
+            muts.insert(mi, {'op': 'DeleteField', 'model': mname,
                              'name': 'id'})
-            return kind, 'DeleteField'
+            return kind, 'DeleteField', mname
         if kind == 'add_existing' and models0:
             mm = rng.choice(models0)
             if mm['fields']:
@@ -141,11 +146,92 @@ def perturb(rng, scn):
                 if f['kind'] != 'ManyToMany' and not f['attrs'].get('null'):
                     mut['initial'] = gen.INITIAL_POOL.get(f['kind'], [1])[0]
                 muts.insert(mi, mut)
-                return kind, 'AddField'
+                return kind, 'AddField', mm['name']
         if kind == 'missing_app_model':
             muts.insert(mi, {'op': 'DeleteModel', 'model': 'Ghost'})
             return kind, 'DeleteModel'
     return None
+
+
+def _marker(scn, kind):
+    """Canonical form of the offending mutation (so that a shrunk scenario
+    that lost it is not judged by the must-reject rule)."""
+    evs = scn['project']['apps']['va']['steps'][0]['evos']
+    for e in evs:
+        for m in e['mutations']:
+            if kind == 'delete_pk' and m['op'] == 'DeleteField' and \
+                    m.get('name') == 'id':
+                return spec.canon(m)
+            if kind == 'missing_app_model' and m.get('model') == 'Ghost':
+                return spec.canon(m)
+            if kind == 'rename_model' and 'Nope' in (m.get('model'),
+                                                     m.get('old')):
+                return spec.canon(m)
+            if kind == 'rename_field' and any(
+                    isinstance(m.get(k), str) and m[k].endswith('q')
+                    for k in ('name', 'old')) or (
+                    kind == 'rename_field' and m['op'] == 'AddField'
+                    and m['field']['name'].endswith('q')):
+                return spec.canon(m)
+            if kind == 'strip_initial' and 'initial' not in m and (
+                    (m['op'] == 'AddField'
+                     and not m['field']['attrs'].get('null')
+                     and m['field']['kind'] != 'ManyToMany') or
+                    (m['op'] == 'ChangeField' and
+                     (m.get('attrs') or {}).get('null') is False)):
+                return spec.canon(m)
+    return None
+
+
+def _has_marker(scn):
+    mk = (scn.get('perturbation') or {}).get('marker')
+    if mk is None:
+        return True
+    for e in scn['project']['apps']['va']['steps'][0]['evos']:
+        for m in e['mutations']:
+            if spec.canon(m) == mk:
+                return True
+    return False
+
+
+def _offending_models(scn, kind):
+    out = set()
+    evs = scn['project']['apps']['va']['steps'][0]['evos']
+    for e in evs:
+        for m in e['mutations']:
+            if kind == 'delete_pk' and m['op'] == 'DeleteField' and \
+                    m.get('name') == 'id':
+                out.add(m['model'])
+            elif kind == 'missing_app_model' and m.get('model') == 'Ghost':
+                out.add('Ghost')
+            elif kind == 'rename_model' and 'Nope' in (m.get('model'),
+                                                       m.get('old')):
+                out.add('Nope')
+            elif kind == 'rename_field' and m['op'] == 'RenameModel' and \
+                    m['old'].endswith('q'):
+                out.add(m['old'])
+    if not out:
+        for e in evs:
+            for m in e['mutations']:
+                if isinstance(m.get('model'), str):
+                    out.add(m['model'])
+    return out
+
+
+def changed_models(scn):
+    """Model names the evolver's pending-mutation filter keeps: present in
+    both signatures and different, or present only in the stored one."""
+    sts = proj.states(scn['project'])
+    old = {m['name']: m for m in sts[0]['apps']['va']['models']}
+    new = {m['name']: m for m in scn['target_state']['apps']['va']['models']}
+    out = set()
+    for n in old:
+        if n not in new:
+            out.add(n)
+        elif spec.canon(spec.normalised_models([old[n]])) != spec.canon(
+                spec.normalised_models([new[n]])):
+            out.add(n)
+    return out
 
 
 def generate(seed, index, tier):
@@ -161,15 +247,77 @@ def generate(seed, index, tier):
         scn = scenarios.single_step(rng, cfg=cfg)
         if not scn['project']['apps']['va']['steps'][0]['evos']:
             continue
+        # sometimes extend the valid evolution by a type change that also
+        # makes the column non-null (initial value required)
+        if rng.random() < 0.15:
+            st_now = proj.states(scn['project'])[1]
+            st_old = proj.states(scn['project'])[0]
+            touched = set()
+            for e_ in scn['project']['apps']['va']['steps'][0]['evos']:
+                for m_ in e_['mutations']:
+                    for k_ in ('name', 'old', 'new'):
+                        if isinstance(m_.get(k_), str):
+                            touched.add((m_.get('model'), m_[k_]))
+                    if m_['op'] == 'AddField':
+                        touched.add((m_['model'], m_['field']['name']))
+                    if m_['op'] in ('RenameModel', 'DeleteModel'):
+                        touched.add((m_.get('old') or m_.get('model'), '*'))
+            old_fields = {(m['name'], f['name'])
+                          for m in st_old['apps']['va']['models']
+                          for f in m['fields']}
+            cands = [(m, f) for m in st_now['apps']['va']['models']
+                     for f in m['fields']
+                     if f['kind'] in ('Char', 'Integer')
+                     and (m['name'], f['name']) in old_fields
+                     and (m['name'], f['name']) not in touched
+                     and (m['name'], '*') not in touched
+                     and f['attrs'].get('null')
+                     and not spec.fields_in_meta(m).get(f['name'])
+                     and not f['attrs'].get('unique')
+                     and not f['attrs'].get('db_index')]
+            trows_ok = True
+            if cands:
+                m, f = rng.choice(cands)
+                keep = {k2: v for k2, v in f['attrs'].items()
+                        if k2 in ('db_column',)}
+                keep['null'] = False
+                newkind = 'Text' if f['kind'] == 'Char' else 'BigInteger'
+                extra = {'op': 'ChangeField', 'model': m['name'],
+                         'name': f['name'], 'kind': newkind, 'attrs': keep,
+                         'initial': 'x' if newkind == 'Text' else 7}
+                evs = scn['project']['apps']['va']['steps'][0]['evos']
+                evs[-1]['mutations'].append(extra)
+                try:
+                    for st_ in proj.states(scn['project']):
+                        spec.validate_state(st_)
+                    scn['forced_strip'] = [len(evs) - 1,
+                                           len(evs[-1]['mutations']) - 1]
+                except spec.SpecError:
+                    evs[-1]['mutations'].pop()
         sts = proj.states(scn['project'])
         # the target models are those of the VALID evolution
         step = scn['project']['apps']['va']['steps'][0]
         step['target'] = copy.deepcopy(sts[1]['apps']['va']['models'])
         scn['target_state'] = copy.deepcopy(sts[1])
-        p = perturb(rng, scn)
+        if scn.get('forced_strip'):
+            ei, mi = scn['forced_strip']
+            mu = scn['project']['apps']['va']['steps'][0]['evos'][ei][
+                'mutations'][mi]
+            del mu['initial']
+            p = ('strip_initial', 'ChangeField:type')
+        else:
+            p = perturb(rng, scn)
         if p is None:
             continue
         scn['perturbation'] = {'kind': p[0], 'on': p[1]}
+        # which model does the offending mutation name, and would the
+        # evolver's pending-mutation filter keep it?
+        scn['perturbation']['marker'] = _marker(scn, p[0])
+        if len(p) > 2:
+            scn['perturbation']['models'] = [p[2]]
+        else:
+            scn['perturbation']['models'] = sorted(
+                _offending_models(scn, p[0]))
         scn['clean'] = bool(cfg.get('clean_rebuild'))
         return scn
     return scn
@@ -203,7 +351,19 @@ def execute(scn):
     stats, viols = {}, []
     pert = scn.get('perturbation') or {}
     tags = common.op_tags(P)
+    try:
+        kept = changed_models(scn)
+        filtered = bool(pert.get('models')) and not (
+            set(pert.get('models') or []) & kept)
+    except Exception:
+        filtered = False
+    from evosim import history as _history
+    feats = _history.features([m for e in P['apps']['va']['steps'][0]['evos']
+                               for m in e['mutations']])
     detail = dict(perturbation=pert.get('kind'), on=pert.get('on'),
+                  offending_mutation_filtered=filtered,
+                  rename_entangled=feats['rename_entangled'],
+                  name_reuse=feats['name_reuse'],
                   ops=tags, ops_str=' '.join(tags),
                   clean=bool(scn.get('clean')))
     res = {'violations': viols, 'stats': stats, 'nontrivial': False,
@@ -279,6 +439,30 @@ def execute(scn):
                     table=None, what=[], origin=None, shadowed=False,
                     rebuilt=False, status=r2.status,
                     out=(r2.stdout() + r2.stderr())[-200:], **detail))
+    # the defects the property lists by name must be rejected, whatever the
+    # outcome would have looked like
+    deleted_later = {m['model'] for e in P['apps']['va']['steps'][0]['evos']
+                     for m in e['mutations'] if m['op'] == 'DeleteModel'}
+    must = pert.get('kind') in MUST_REJECT and _has_marker(scn)
+    if pert.get('kind') == 'rename_field' and pert.get('on') == 'AddField':
+        must = False        # a misnamed new field is a residual-diff case
+    if set(pert.get('models') or []) & deleted_later:
+        must = False        # mutations of a model deleted in the same
+        #                     batch are legitimately discarded
+    mk = pert.get('marker')
+    if mk:
+        import json as _json
+        om = _json.loads(mk)
+        fname = om.get('name') or (om.get('field') or {}).get('name')
+        for e in P['apps']['va']['steps'][0]['evos']:
+            for m in e['mutations']:
+                if m['op'] == 'DeleteField' and m.get('model') == om.get(
+                        'model') and m.get('name') == fname and \
+                        spec.canon(m) != mk:
+                    must = False    # the field is deleted in the same batch
+    if must and outcome in ('accepted', 'noop', 'failed_after_sql'):
+        viols.append(violation('C12.listed_defect_accepted',
+                               outcome=outcome, **detail))
     stats['perturb_' + str(pert.get('kind'))] = 1
     res['shape'] = spec.canon([pert.get('kind'), pert.get('on'), outcome,
                                scenarios.shape_digest(scn)])
